@@ -9,7 +9,10 @@
           `run_total` (no `KeyError` inside the index), `fwd_rev_consistent`, `no_empty_collections`,
           `keys_unique`, `mirror` (index = groupBy of the documented per-object reference, exactly;
           unconditional since kopf 5068b98 repaired finding C17-F1), and the keep/remove table as
-          one-step lemmas.
+          one-step lemmas; `memory_others_untouched`, `keyed_follows`, `mirror_keyed` (one retry /
+          exclusion memory per object whenever the memories' key tells the objects apart: also for
+          objects without a uid since kopf 8c8cff5 repaired finding C17-F5; `shared_memory_witness`
+          is the old key, kept as a regression).
   Part II (gate): for every interleaving of the labelled transition system of the gate, with any
           number of `spawn_missing_watchers` batches — `gate_safe`, `pass_safe`, `detach_safe`,
           `ungated_only_after_ready`, `late_kind_witness` (by design, F4); beyond the property:
@@ -19,6 +22,7 @@
 -/
 import Kopf.Base.J
 import Kopf.Lemmas.C17_Mirror
+import Kopf.Lemmas.C17_Keyed
 import Kopf.Lemmas.C17_GateLive
 import Kopf.Lemmas.C17_Nodup
 namespace Kopf.C17
@@ -89,6 +93,48 @@ theorem mirror_exclusions (cfg : List (Indexer Id Res L)) (bk : Nat) (hnd : (cfg
   obtain ⟨s', h', _, hl⟩ := mirror_gen cfg bk hnd evs State.init _ State.invAll_init (link_init cfg)
   rw [h] at h'; cases h'
   exact (hl c hc o).1
+
+/-! #### the memories' key (`inventory.ResourceMemories._build_key`) -/
+
+/-- **Frame for the memories**: an event touches the retry/exclusion memory of its own object only
+    (`memories.recall(raw_body)` / `memories.forget(raw_body)` address one key). With
+    `others_untouched` this is the whole independence of objects: what happens to one object — a
+    failure, an exclusion, a deletion — never decides for another. (No invariant is needed.) -/
+theorem memory_others_untouched (cfg : List (Indexer Id Res L)) (bk : Nat) (s s' : State Id K V O)
+    (e : Event Id Res L K V O) (hs : step cfg bk s e = some s') (o : O) (ho : o ≠ e.obj) :
+    s'.mem o = s.mem o :=
+  step_mem_other cfg bk s s' e hs o ho
+
+/-- **Any key that tells the objects apart is as good as one memory per object.** The mechanism
+    with the memories kept under `mk obj` (`stepKeyed`: `memories._items[_build_key(body)]`) shows, for
+    every history, exactly what `run` shows — indices and, through the key, memories. The real key
+    is the uid, or for an object without a uid the surrogate kind/apiVersion/name/namespace/
+    creationTimestamp (kopf 8c8cff5): injective on the objects of a cluster (a uid is unique; two
+    live objects without one differ in kind, name or namespace). That the key of the code under
+    test tells the generated objects apart is checked by the D tie (the real memories are compared
+    per object through `_build_key`). -/
+theorem keyed_follows {M : Type} [DecidableEq M] (mk : O → M) (hmk : ∀ a b, mk a = mk b → a = b)
+    (cfg : List (Indexer Id Res L)) (bk : Nat) (evs : List (Event Id Res L K V O)) :
+    (runKeyed mk cfg bk (KState.init : KState Id K V O M) evs).map (KState.view mk) =
+      run cfg bk State.init evs :=
+  runKeyed_view mk hmk cfg bk evs KState.init
+
+/-- **Mirror, with the memories under a key** (was `_partial` in effect before kopf 8c8cff5: the
+    D tie and the statement excluded histories with several objects without a uid — finding C17-F5):
+    for every injective key — objects with or without a uid alike — every index equals `groupBy` of
+    the documented reference and the memory found under an object's key is the reference's
+    exclusion record of that object. -/
+theorem mirror_keyed {M : Type} [DecidableEq M] (mk : O → M) (hmk : ∀ a b, mk a = mk b → a = b)
+    (cfg : List (Indexer Id Res L)) (bk : Nat) (hnd : (cfg.map (·.id)).Nodup)
+    (evs : List (Event Id Res L K V O)) (s : KState Id K V O M)
+    (h : runKeyed mk cfg bk KState.init evs = some s) (c : Indexer Id Res L) (hc : c ∈ cfg) (o : O) :
+    (∀ k, (s.ixs c.id).val k o = groupBy (fun o => (refRun cfg bk c o RefSt.init evs).contrib) k o) ∧
+    s.mem (mk o) c.id = (refRun cfg bk c o RefSt.init evs).excl := by
+  have hv := keyed_follows mk hmk cfg bk evs
+  rw [h] at hv
+  simp only [Option.map] at hv
+  exact ⟨fun k => mirror cfg bk hnd evs (s.view mk) hv.symm c hc k o,
+         mirror_exclusions cfg bk hnd evs (s.view mk) hv.symm c hc o⟩
 
 /-- every state reached by `run` satisfies the per-index invariant (used by the table below) -/
 theorem invAll_of_run (cfg : List (Indexer Id Res L)) (bk : Nat) (hnd : (cfg.map (·.id)).Nodup)
@@ -302,6 +348,58 @@ private def evW (t : Nat) (v : J) : Event Nat Nat Nat Nat J Nat :=
     `1 != True` is `False`, and the index kept `1`). -/
 example : (run [cW] 60 (State.init : State Nat Nat J Nat) [evW 0 (J.num 1), evW 1 (J.bool true)]).map
     (fun s => match (s.ixs 1).val (some 1) 10 with | some (J.bool true) => true | _ => false) = some true := rfl
+
+/-! #### regression for the repaired finding C17-F5 (kopf 8c8cff5): objects without a uid -/
+
+private def cS : Indexer Nat Nat Nat := ⟨1, 0, none, some .temporary, none, none, none⟩
+
+private def evS (t o : Nat) (sc : Script Nat Nat) : Event Nat Nat Nat Nat Nat Nat :=
+  ⟨t, 0, o, false, none, fun _ => sc⟩
+
+/-- corpus/C17/F5_uidless_objects_share_memory.json: the index function of object 10 fails with a
+    `TemporaryError(delay=60)`; one and two seconds later the unrelated object 11 arrives -/
+private def histS : List (Event Nat Nat Nat Nat Nat Nat) :=
+  [evS 0 10 (.tempErr (some 60)), evS 1 11 (.dict [(some 1, 1)]), evS 2 11 (.dict [(some 1, 2)])]
+
+-- one memory per object (the code since 8c8cff5, whatever the injective key is): 11 is indexed
+example : (run [cS] 60 (State.init : State Nat Nat Nat Nat) histS).map
+    (fun s => ((s.ixs 1).val (some 1) 11, s.mem 10 1, s.mem 11 1))
+    = some (some 2, some ⟨1, some 60, false, 0⟩, none) := by decide
+
+example : (runKeyed (fun o : Nat => (o, "surrogate")) [cS] 60 (KState.init : KState Nat Nat Nat Nat (Nat × String)) histS).map
+    (fun s => ((s.ixs 1).val (some 1) 11, s.mem (10, "surrogate") 1, s.mem (11, "surrogate") 1))
+    = some (some 2, some ⟨1, some 60, false, 0⟩, none) := by decide
+
+/-- **The old key** (`uid or ''`: ONE memory for all objects without a uid — a constant `mk`), kept
+    as a named variant: object 10's sleeping retry record decides for object 11, whose index
+    function is not called, and 11 never enters the index although the documented rules put its
+    latest result there. So `mirror_keyed` is false without the injectivity of the key (finding
+    C17-F5, repaired in kopf 8c8cff5; the D tie and the oracle replay this history on the real
+    code). -/
+theorem shared_memory_witness : ∃ (evs : List (Event Nat Nat Nat Nat Nat Nat)) (s : KState Nat Nat Nat Nat Unit),
+    runKeyed (fun _ => ()) [cS] 60 KState.init evs = some s ∧
+    (s.ixs cS.id).val (some 1) 11 = none ∧
+    groupBy (fun o => (refRun [cS] 60 cS o (RefSt.init : RefSt Nat Nat) evs).contrib) (some 1) 11 = some 2 := by
+  refine ⟨histS, _, rfl, ?_, ?_⟩ <;> decide
+
+/-! #### the index key of objects without a uid (open finding C17-F6) -/
+
+private def cK0 : Indexer Nat Nat Nat := ⟨1, 0, none, none, none, none, none⟩   -- the index of kind 0
+private def cK1 : Indexer Nat Nat Nat := ⟨2, 1, none, none, none, none, none⟩   -- the index of kind 1
+
+/-- **The model's object is the index key** (`OperatorIndexers.make_key`: namespace, name, uid). For
+    objects with a uid that is the object. Two objects WITHOUT a uid of two kinds under one
+    namespace/name are ONE key (10 below): the event of the second — a kind mismatch for the first
+    index, `mismatch_discards` — removes the first one's values, although that object is live and
+    matching (open finding C17-F6; corpus/C17/F6_*: the D tie holds, the oracle, which tells the two
+    objects apart, reports it). `mirror` is about index keys; it is about objects wherever
+    `make_key` is injective: on objects with uids. -/
+theorem namesakes_share_entry_witness :
+    (run [cK0, cK1] 60 (State.init : State Nat Nat Nat Nat)
+      [ ⟨0, 0, 10, false, none, fun _ => .dict [(some 1, 100)]⟩,       -- kind 0, key 10: indexed under 1
+        ⟨1, 1, 10, false, none, fun _ => .dict [(some 1, 200)]⟩ ]).map  -- kind 1, the SAME key
+      (fun s => ((s.ixs 1).val (some 1) 10, (s.ixs 2).val (some 1) 10)) = some (none, some 200) := by
+  decide
 
 end Examples
 
